@@ -5,6 +5,7 @@ the same object as a bundle member and (SCOs) as an observed-data element.
 Oracle: no exception; every input property present with the same value (model-guided comparison).
 """
 import json
+import re
 import warnings
 
 from ..ctx import Workload
@@ -102,6 +103,12 @@ def classify_refusal(o, exc):
             if k:
                 return k
         return "valid-selector-refused"
+    m = re.search(r"Selector (\S+) in \w+ is not valid", msg)
+    if m:
+        for member in [o] + [x for x in o.get("objects", []) if isinstance(x, dict)] if isinstance(o.get("objects"), list) else [o]:
+            k = classify_selector(member, m.group(1))
+            if k:
+                return k
     digs = set()
     ts_digit_counts(o, digs)
     if any(d > 6 for d in digs) and ("timestamp" in msg or "datetime" in msg):
@@ -192,7 +199,7 @@ PAIRS = [(ver, t, pr) for ver, t in TYPES for pr in optional_pairs(M.model(ver),
 
 
 def wl_pairs(ctx, rng, i):
-    ver, t, pair = PAIRS[i]
+    ver, t, pair = PAIRS[i % len(PAIRS)]
     g = gen_for(rng, ver, i)
     o = g.make(t, ("only", list(pair)), granular=False)
     judge(ctx, o, ver, tags=("pairwise",))
@@ -259,6 +266,9 @@ def boundary_slots():
 
 
 BOUNDARY = boundary_slots()
+# properties whose value is unconstrained free text, where the empty string is a legal value
+FREE_TEXT = {"name", "description", "content", "abstract", "explanation", "objective", "contact_information", "subject", "body",
+             "result_name", "display_name", "cwd", "command_line", "comment", "tool_version", "street_address", "city"}
 
 
 def wl_boundary(ctx, rng, i):
@@ -275,10 +285,10 @@ def wl_boundary(ctx, rng, i):
     elif k == "bool":
         vals = [False, True]
     else:
-        if prop in ("name", "description", "content", "value", "key", "path", "statement", "subject", "body") or rng.random() < 0.3:
-            vals = ["", "0"]
-        else:
-            vals = ["0"]
+        if prop not in FREE_TEXT:
+            ctx.skip("string slot with constrained content: no boundary value certain to be valid")
+            return
+        vals = ["", "0"]
     for v in vals:
         o = g.make(t, ("only", [prop]), granular=False)
         if prop not in o:
@@ -303,8 +313,8 @@ def wl_boundary(ctx, rng, i):
 
 
 WORKLOADS = [
-    Workload("profiles", wl_profiles, quick=lambda: len(TYPES) * 8, thorough=lambda: len(TYPES) * 400),
-    Workload("pairs", wl_pairs, quick=lambda: len(PAIRS) // 4, thorough=lambda: len(PAIRS)),
+    Workload("profiles", wl_profiles, quick=lambda: len(TYPES) * 32, thorough=lambda: len(TYPES) * 600),
+    Workload("pairs", wl_pairs, quick=lambda: len(PAIRS), thorough=lambda: len(PAIRS) * 4),
     Workload("vocab", wl_vocab, quick=lambda: len(VOCAB), thorough=lambda: len(VOCAB), exhaustive=True),
     Workload("boundary", wl_boundary, quick=lambda: len(BOUNDARY), thorough=lambda: len(BOUNDARY), exhaustive=True),
 ]
